@@ -456,7 +456,7 @@ pub fn main(seed: u64, tier: &str, only: Option<&str>) {
         run_case("replay", &out::unhex(f[2]), &c3, f[0], &ver, &mut stats);
         return;
     }
-    let n = if tier == "thorough" { 5000 } else { 320 };
+    let n = if tier == "thorough" { 5000 * crate::out::thorough_scale() } else { 320 };
     let scripts = ["e", "ee", "ege", "ge", "eee", "egege", "gee"];
     let mut nconfigs = std::collections::HashSet::new();
     for case in 0..n {
